@@ -1,9 +1,11 @@
 import MJ.Model.Fold
 import MJ.Model.FoldPrims
+import MJ.Model.FoldStmt
 /-! Line driver for C04.
 
     stdin : `<mode>\t<ast tokens>` (the real parser's AST as dumped by `harness/src/bin/c04.rs`)
     stdout: `fold=<none|some V>\tcomp=<ok V|err:Kind>\trt=<ok V|err:Kind>\tsupp=<0|1>\twf=<0|1>`
+    (a line `consts\t<AST tokens>` is answered by `consts=<V>,<V>,…`, the constants of the emitted code)
 
     `fold` = `asConst`, `comp` = `evalC` (what the emitted code computes), `rt` = `evalRt` (unfolded
     run-time semantics), all with the concrete primitives of `MJ.Fold.Conc`; `supp` = every primitive
@@ -70,7 +72,7 @@ partial def showV : V → String
   | .list xs => "L(" ++ String.join (xs.map fun x => " " ++ showV x) ++ " )"
   | .tuple xs => "T(" ++ String.join (xs.map fun x => " " ++ showV x) ++ " )"
   | .map xs => "M(" ++ String.join (xs.map fun (k, v) => " " ++ showV k ++ " " ++ showV v) ++ " )"
-  | .other _ => "X"
+  | .other _ => "O"
 
 /-! ### expressions -/
 
@@ -84,6 +86,11 @@ def binOf : String → Option BinOp
 def cmpOf : String → Option CmpOp
   | "eq" => some .eq | "ne" => some .ne | "lt" => some .lt | "le" => some .le
   | "gt" => some .gt | "ge" => some .ge | "in" => some .in_ | "notin" => some .notIn
+  | _ => none
+
+def kindOf : String → Option CallKind
+  | "function" => some .function | "method" => some .method | "object" => some .object
+  | "filter" => some .filter | "test" => some .test
   | _ => none
 
 mutual
@@ -122,6 +129,13 @@ mutual
       | some np, some nk, some (e, r) =>
         match parseEs np r with
         | some (pos, r) => (parseK nk r).map fun (kws, r) => (.test name e pos kws, r)
+        | none => none
+      | _, _, _ => none
+    | "callx" :: kind :: nr :: name :: na :: r =>
+      match kindOf kind, nr.toNat?, na.toNat? with
+      | some kind, some nr, some na =>
+        match parseEs nr r with
+        | some (recv, r) => (parseA na r).map fun (args, r) => (.callx kind recv (if name == "-" then "" else name) args, r)
         | none => none
       | _, _, _ => none
     | "ga" :: name :: r => (parseE r).map fun (e, r) => (.getAttr e name, r)
@@ -165,6 +179,21 @@ mutual
       | some op, some (e, r) => (parseC n r).map fun (c, r) => (.cons op e c, r)
       | _, _ => none
     | _, [] => none
+  partial def parseA : Nat → List String → Option (Args × List String)
+    | 0, r => some (.nil, r)
+    | n + 1, "p" :: r => match parseE r with
+      | some (e, r) => (parseA n r).map fun (a, r) => (.pos e a, r)
+      | none => none
+    | n + 1, "ps" :: r => match parseE r with
+      | some (e, r) => (parseA n r).map fun (a, r) => (.posSplat e a, r)
+      | none => none
+    | n + 1, "k" :: name :: r => match parseE r with
+      | some (e, r) => (parseA n r).map fun (a, r) => (.kw name e a, r)
+      | none => none
+    | n + 1, "ks" :: r => match parseE r with
+      | some (e, r) => (parseA n r).map fun (a, r) => (.kwSplat e a, r)
+      | none => none
+    | _, _ => none
   partial def parseK : Nat → List String → Option (Kws × List String)
     | 0, r => some (.nil, r)
     | n + 1, name :: r => match parseE r with
@@ -190,6 +219,7 @@ mutual
     | .ifExpr c t f => wfE c && wfE t && wfO f
     | .filter _ e pos kws | .test _ e pos kws => wfE e && wfEs pos && wfK kws
     | .call _ pos kws => wfEs pos && wfK kws
+    | .callx _ recv _ args => wfEs recv && wfA args
   def wfO : OptExpr → Bool
     | .none => true
     | .some e => wfE e
@@ -202,6 +232,9 @@ mutual
   def wfC : Chain → Bool
     | .nil => true
     | .cons _ e r => wfE e && wfC r
+  def wfA : Args → Bool
+    | .nil => true
+    | .pos e r | .posSplat e r | .kw _ e r | .kwSplat e r => wfE e && wfA r
   def wfK : Kws → Bool
     | .nil => true
     | .cons _ e r => wfE e && wfK r
@@ -210,7 +243,8 @@ end
 /-! ### are all primitive applications in the transcribed region?  (conservative: every
     sub-expression is evaluated on its own, short-circuiting ignored) -/
 
-def ρ0 : Env := fun _ => none
+/-- the harness' globals: `ob` (an object) and `kw` (a function) as values; every other variable is undefined -/
+def ρ0 : Env := fun x => if x = "ob" then some (.other 1) else if x = "kw" then some (.other 2) else none
 
 def valOf (m : Mode) (e : Expr) : Option V :=
   match evalRt prims m ρ0 e with
@@ -268,6 +302,10 @@ mutual
        | some v, some ps, some ks => why (suppTest name (v :: ps) ks) ("test:" ++ name)
        | _, _, _ => [])
     | .call name pos kws => why (name == "kw") ("call:" ++ name) ++ suppEs m pos ++ suppK m kws
+    | .callx kind recv name args => suppEs m recv ++ suppA m args ++
+      (match valsOf m recv, evalRtArgsPos prims m ρ0 args, evalRtArgsKw prims m ρ0 args with
+       | some rv, .ok ps, .ok ks => why (suppCallX kind name rv (ps ++ ks)) ("callx:" ++ name)
+       | _, _, _ => [])
   def suppO (m : Mode) : OptExpr → List String
     | .none => []
     | .some e => suppE m e
@@ -284,6 +322,9 @@ mutual
       (match valOf m left, valOf m e with
        | some a, some b => why (suppCmp op a b) "cmp:nan"
        | _, _ => [])
+  def suppA (m : Mode) : Args → List String
+    | .nil => []
+    | .pos e r | .posSplat e r | .kw _ e r | .kwSplat e r => suppE m e ++ suppA m r
   def suppK (m : Mode) : Kws → List String
     | .nil => []
     | .cons _ e r => suppE m e ++ suppK m r
@@ -304,8 +345,49 @@ def suppStr (rs : List String) : String := if rs.isEmpty then "1" else "0:" ++ "
 
 def b01 (b : Bool) : String := if b then "1" else "0"
 
+/-! ### statement shapes: `<Kind> <name|-> <nheads> <nbodies> (<len> stmt*)*` -/
+
+def dummyHeads : Nat → Exprs
+  | 0 => .nil
+  | n + 1 => .cons (.var "_") (dummyHeads n)
+
+mutual
+  partial def parseS : List String → Option (Stmt × List String)
+    | kind :: name :: nh :: nb :: r =>
+      match nh.toNat?, nb.toNat? with
+      | some nh, some nb => (parseBs nb r).map fun (bs, r) => (.mk kind (if name == "-" then "" else name) (dummyHeads nh) bs, r)
+      | _, _ => none
+    | _ => none
+  partial def parseBs : Nat → List String → Option (Bodies × List String)
+    | 0, r => some (.nil, r)
+    | n + 1, len :: r =>
+      match len.toNat? with
+      | some len => match parseSs len r with
+        | some (ss, r) => (parseBs n r).map fun (bs, r) => (.cons ss bs, r)
+        | none => none
+      | none => none
+    | _, [] => none
+  partial def parseSs : Nat → List String → Option (Stmts × List String)
+    | 0, r => some (.nil, r)
+    | n + 1, r => match parseS r with
+      | some (s, r) => (parseSs n r).map fun (ss, r) => (.cons s ss, r)
+      | none => none
+end
+
+def sortStrs (xs : List String) : List String := (xs.toArray.qsort (· < ·)).toList
+
 def handle (line : String) : String :=
   match line.splitOn "\t" with
+  | ["stmt", toks] =>
+    -- the block table the model's traversal registers for a statement tree
+    match parseS ((toks.splitOn " ").filter (· ≠ "")) with
+    | some (s, []) => "blocks=" ++ ",".intercalate (sortStrs (registeredBlocks s).eraseDups)
+    | _ => "bad-case"
+  | ["consts", toks] =>
+    -- the `LoadConst` values of the code the model's `compile_expr` emits for a hoisting variant
+    match parseE ((toks.splitOn " ").filter (· ≠ "")) with
+    | some (e, []) => "consts=" ++ ",".intercalate ((constsC prims e).map showV)
+    | _ => "bad-case"
   | [mode, toks] =>
     match modeOf mode, parseE ((toks.splitOn " ").filter (· ≠ "")) with
     | some m, some (e, []) =>
